@@ -34,6 +34,9 @@ RtNames == IntNames \cup {"bool", "char", "f32", "f64", "void", "p_i32", "sA", "
 Val(n, cls) ==
     LET t == Ty(n) IN
     CASE cls = "none" -> PNone
+      [] cls = "short" -> PList(IF n = "sA" THEN <<PI(1)>> ELSE IF n = "sB" THEN <<PI(1), PI(0 - 2)>> ELSE <<PI(2)>>)
+      [] cls = "dshort" -> IF n \in {"sA", "sB", "sE"}
+                           THEN [k |-> "dict", keys |-> <<Len(Ty(n).fields)>>, items |-> <<PI(1)>>] ELSE PNone
       [] n \in IntNames ->
            (CASE cls = "ok" -> PI(MaxOf(t)) [] cls = "ok2" -> PI(MinOf(t)) [] cls = "err" -> PI(IF t.signed THEN 0 - 2 ELSE 2)
               [] cls = "ovf" -> PI(MaxOf(t) + 1) [] cls = "badtype" -> PFl(1))
@@ -54,7 +57,8 @@ Val(n, cls) ==
       [] n = "sE" -> (CASE cls = "ok" -> PList(<<PI(0 - 1), PI(3)>>) [] cls = "ok2" -> PList(<<PI(2), PI(0)>>)
                         [] cls = "err" -> PList(<<PI(2), PI(2)>>)
                         [] cls = "ovf" -> PList(<<PI(1), PI(0 - 1)>>) [] cls = "badtype" -> PNone)
-BodyClasses == {"raise", "ok", "ok2", "ovf", "badtype", "none"}
+BodyClasses == {"raise", "ok", "ok2", "ovf", "badtype", "none", "short", "dshort"}
+StructRts == {"sA", "sB", "sE"}
 OnerrClasses == {"absent", "none", "raise", "ok", "ovf"}
 AllCfgs == {[mode |-> m, rtn |-> n, rt |-> Ty(n), bcls |-> b, ocls |-> o,
             body |-> IF b = "raise" THEN "raise" ELSE "ret",
@@ -64,7 +68,8 @@ AllCfgs == {[mode |-> m, rtn |-> n, rt |-> Ty(n), bcls |-> b, ocls |-> o,
             onv |-> IF o \in {"ok", "ovf"} THEN Val(n, o) ELSE PNone] :
               m \in {"callback", "extern"}, n \in RtNames, b \in BodyClasses,
               h \in BOOLEAN, o \in OnerrClasses}
-MCCfgs == {c \in AllCfgs : ~(c.rtn = "void" /\ c.haserr)}
+\* (a short list / dict initializer exists only for struct results)
+MCCfgs == {c \in AllCfgs : ~(c.rtn = "void" /\ c.haserr) /\ (c.bcls \in {"short", "dshort"} => c.rtn \in StructRts)}
 \* a slice of the product, enough to reject the broken variants quickly
 SmallCfgs == {c \in MCCfgs : c.rtn \in {"i8", "u16", "sA"}}
 
